@@ -389,11 +389,50 @@ def r2_4(ctx):
                     ctx.ok("R2.4", where(fi), f"{norm(s, 50)} is followed by a commit on every normal path")
 
 
+def r2_6(ctx):
+    """What a session is *told*: every response template that names UIDNEXT / UIDVALIDITY (SELECT, STATUS, LIST-STATUS,
+    APPENDUID, COPYUID) prints the mailbox's own next_uid / uid_vv attribute - the very variables R2.1-R2.4 keep monotone
+    and committed - and a session that selects a mailbox is registered in its `clients` table (else it is told nothing more)."""
+    from ..astutil import fstring_parts, merge_consts
+
+    p = ctx.p
+    want = {"UIDNEXT ": "next_uid", "UIDVALIDITY ": "uid_vv", "APPENDUID ": "uid_vv", "COPYUID ": "uid_vv"}
+    counts = {k: 0 for k in want}
+    for mod in ("mbox", "client"):
+        for fi in p.funcs_in(mod):
+            for n in body_walk(fi.node):
+                if not isinstance(n, ast.JoinedStr):
+                    continue
+                parts = merge_consts(fstring_parts(n))
+                for i, x in enumerate(parts):
+                    if not isinstance(x, str) or i + 1 >= len(parts) or isinstance(parts[i + 1], str):
+                        continue
+                    for key, attr in want.items():
+                        if x.endswith(key) or x.endswith("[" + key):
+                            counts[key] += 1
+                            ctx.analysed(fi)
+                            h = parts[i + 1]
+                            if isinstance(h, ast.Attribute) and h.attr == attr:
+                                ctx.ok("R2.6", where(fi), f"`{key.strip()} {{{norm(h)}}}`", nontrivial=False)
+                            else:
+                                ctx.bad("R2.6", fi.module, fi.qual, f"{key.strip()} {{{norm(h, 40)}}}", f"the {key.strip()} a client is told is `{norm(h, 40)}`, not the mailbox's `{attr}`: the value reported is not the one whose monotonicity / persistence is maintained", n.lineno)
+    for key, nmin in (("UIDNEXT ", 3), ("UIDVALIDITY ", 3), ("APPENDUID ", 1), ("COPYUID ", 1)):
+        ctx.floor("R2.6", counts[key], nmin, f"response templates naming {key.strip()}")
+    sel = p.func("mbox.Mailbox.selected")
+    ctx.analysed(sel)
+    from .common import pm_of
+    if pm_of(p, sel).has("self.clients[client.name] = client"):
+        ctx.ok("R2.6", where(sel), "the selecting session is registered in the mailbox's clients table")
+    else:
+        ctx.bad("R2.6", sel.module, sel.qual, "self.clients[client.name] = client", "a session that selects the mailbox is no longer registered with it: it is never told about new messages, expunges or flag changes", sel.node.lineno)
+
+
 def run(ctx):
     ctx.do(r2_1)
     ctx.do(r2_2)
     ctx.do(r2_3)
     ctx.do(r2_4)
+    ctx.do(r2_6)
     from . import c03, c05, c13
     ctx.do(c03.r3_1_2)
     ctx.do(c03.r3_5)
